@@ -99,7 +99,7 @@ def parseSimple (nContours : Nat) : P (List Pt) := do
     ys := ys.push cur
   return (List.range nPts).map fun i => { x := xs[i]!, y := ys[i]! }
 
-/-- Points of glyph `g` (composites expanded with their x/y offsets and x/y scales; 2x2 transforms unsupported → none). -/
+/-- Points of glyph `g` (composites expanded with their x/y offsets, x/y scales and 2x2 transforms). -/
 partial def glyphPoints (glyf loca : ByteArray) (longLoca : Bool) (g : Nat) (depth : Nat := 0) : Option (List Pt) :=
   if depth > 8 then none else
   let off (i : Nat) : Nat := if longLoca then beU32 loca (4 * i) else 2 * beU16 loca (2 * i)
@@ -129,19 +129,21 @@ partial def glyphPoints (glyf loca : ByteArray) (longLoca : Bool) (g : Nat) (dep
           let s (v : Nat) : Int := if v ≥ 128 then (v : Int) - 256 else v
           (s (glyf.get! (p + 4)).toNat, s (glyf.get! (p + 5)).toNat, p + 6)
       if !xy then none else
-      if flags / 128 % 2 == 1 then none else        -- 2x2 transforms: not modelled
       let f2 (q : Nat) : Int := let v := beU16 glyf q; if v ≥ 32768 then (v : Int) - 65536 else v
-      -- scales in F2Dot14 units; the offset is not scaled ("ignore fTransOff for now" in TtfUtil.cpp)
-      let (sx, sy, p'') : Int × Int × Nat :=
-        if flags / 8 % 2 == 1 then (f2 p', f2 p', p' + 2)
-        else if flags / 64 % 2 == 1 then (f2 p', f2 (p' + 2), p' + 4)
-        else (16384, 16384, p')
+      -- the transform in F2Dot14 units, as the format defines it: x' = xscale*x + scale10*y, y' = scale01*x + yscale*y
+      -- (WE_HAVE_A_TWO_BY_TWO stores xscale, scale01, scale10, yscale in this order); the offset is not transformed
+      -- ("ignore fTransOff for now" in TtfUtil.cpp)
+      let (sx, s01, s10, sy, p'') : Int × Int × Int × Int × Nat :=
+        if flags / 8 % 2 == 1 then (f2 p', 0, 0, f2 p', p' + 2)
+        else if flags / 64 % 2 == 1 then (f2 p', 0, 0, f2 (p' + 2), p' + 4)
+        else if flags / 128 % 2 == 1 then (f2 p', f2 (p' + 2), f2 (p' + 4), f2 (p' + 6), p' + 8)
+        else (16384, 0, 0, 16384, p')
       match glyphPoints glyf loca longLoca gid (depth + 1) with
       | none => none
       | some pts =>
-        -- a scaled coordinate is cut to an integer toward zero, as `(int)(x * flt11 + y * flt12)` does
-        let tr (v s : Int) : Int := if s == 16384 then v else Int.tdiv (v * s) 16384
-        let acc' := acc ++ pts.map fun q => { x := tr q.x sx + dx, y := tr q.y sy + dy }
+        -- a transformed coordinate is cut to an integer toward zero, as `(int)(x * flt11 + y * flt21)` does
+        let tr (v s w t : Int) : Int := if s == 16384 ∧ t == 0 then v else Int.tdiv (v * s + w * t) 16384
+        let acc' := acc ++ pts.map fun q => { x := tr q.x sx q.y s10 + dx, y := tr q.y sy q.x s01 + dy }
         if flags / 32 % 2 == 1 then comps p'' acc' (fuel - 1) else some acc'
     comps (a + 10) [] 64
 
